@@ -439,7 +439,9 @@ fn decode_one(input: &[u8]) -> One {
 
 #[derive(Clone)]
 enum Cases {
-    Range { gen: Gen, lo: u64, hi: u64, l_tok: usize, n_byte: usize },
+    /// positions lo..hi of the strided index sequence off, off + stride, off + 2*stride, ... (consecutive fatal
+    /// inputs are thereby spread over all workers instead of being worked off one by one in a single range)
+    Range { gen: Gen, off: u64, stride: u64, lo: u64, hi: u64, l_tok: usize, n_byte: usize },
     Hex(Vec<u8>),
 }
 impl Cases {
@@ -457,18 +459,25 @@ impl Cases {
     }
     fn with(&self, a: u64, b: u64) -> Cases {
         match self {
-            Cases::Range { gen, l_tok, n_byte, .. } => Cases::Range { gen: *gen, lo: a, hi: b, l_tok: *l_tok, n_byte: *n_byte },
+            Cases::Range { gen, off, stride, l_tok, n_byte, .. } => Cases::Range { gen: *gen, off: *off, stride: *stride, lo: a, hi: b, l_tok: *l_tok, n_byte: *n_byte },
             Cases::Hex(h) => Cases::Hex(h.clone()),
         }
     }
     fn case(&self, idx: u64) -> (Vec<u8>, bool, bool) {
         match self {
             Cases::Range { gen, l_tok, n_byte, .. } => {
-                let (input, canon) = gen.case(idx);
+                let (input, canon) = gen.case(self.real(idx));
                 let home = canon && first_generator(*gen, &input, *l_tok, *n_byte);
                 (input, canon, home)
             }
             Cases::Hex(h) => (h.clone(), true, true),
+        }
+    }
+    /// generator index of position k
+    fn real(&self, k: u64) -> u64 {
+        match self {
+            Cases::Range { off, stride, .. } => off + k * stride,
+            Cases::Hex(_) => k,
         }
     }
     fn gen_name(&self) -> String {
@@ -510,9 +519,9 @@ fn run_cases_in_child(c: &Cases, progress: *mut u64) -> Tally {
             } else {
                 format!("decode({}) peak allocation {} B for {} input bytes (budget {})", esc(&input), o.peak, input.len(), budget(input.len()))
             };
-            t.vio(format!("{}:{}", region(&input), sym), 1, idx, msg);
+            t.vio(format!("{}:{}", region(&input), sym), 1, c.real(idx), msg);
         } else if t.samples.len() < 2 && home && o.class != 'N' && input.len() >= 4 {
-            t.samples.push(json!({"gen": c.gen_name(), "idx": idx, "input": esc(&input), "outcome": o.class.to_string(), "peak_alloc": o.peak}));
+            t.samples.push(json!({"gen": c.gen_name(), "idx": c.real(idx), "input": esc(&input), "outcome": o.class.to_string(), "peak_alloc": o.peak}));
         }
     }
     t
@@ -588,8 +597,26 @@ fn fork_run(c: &Cases, progress: *mut u64) -> ChildEnd {
         libc::close(rp[1]);
         libc::close(ep[1]);
     }
-    let deadline = std::time::Instant::now() + std::time::Duration::from_secs(90);
-    let (res, finished) = read_all(rp[0], deadline);
+    // watchdog on progress, not on the range: a case that holds the progress word for 120 s is a hang
+    let mut res = vec![];
+    let mut finished;
+    let mut last_progress = unsafe { std::ptr::read_volatile(progress) };
+    let mut last_change = std::time::Instant::now();
+    loop {
+        let (part, done) = read_all(rp[0], std::time::Instant::now() + std::time::Duration::from_secs(5));
+        res.extend_from_slice(&part);
+        finished = done;
+        if done {
+            break;
+        }
+        let now = unsafe { std::ptr::read_volatile(progress) };
+        if now != last_progress {
+            last_progress = now;
+            last_change = std::time::Instant::now();
+        } else if last_change.elapsed() > std::time::Duration::from_secs(120) {
+            break;
+        }
+    }
     if !finished {
         unsafe { libc::kill(pid, libc::SIGKILL) };
     }
@@ -604,7 +631,7 @@ fn fork_run(c: &Cases, progress: *mut u64) -> ChildEnd {
     let errtxt = String::from_utf8_lossy(&errtxt).replace('\n', " | ");
     let errtxt = errtxt.split(" | ").filter(|l| !l.contains("RUST_BACKTRACE") && !l.trim().is_empty()).map(strip_tid).collect::<Vec<_>>().join(" | ");
     if !finished {
-        return ChildEnd::Died(at.wrapping_sub(1), "hang".into(), "no answer within 90 s".into());
+        return ChildEnd::Died(at.wrapping_sub(1), "hang".into(), "the case did not finish within 120 s".into());
     }
     if libc::WIFEXITED(status) && libc::WEXITSTATUS(status) == 0 {
         if let Some(t) = serde_json::from_slice::<Value>(&res).ok().and_then(|v| Tally::from_json(&v)) {
@@ -635,12 +662,12 @@ fn strip_tid(l: &str) -> String {
     }
 }
 
-/// `range <gen> <lo> <hi> <L> <N>` or `hex <hex>`; answer: hex(JSON tally).
+/// `range <gen> <offset> <stride> <lo> <hi> <L> <N>` or `hex <hex>`; answer: hex(JSON tally).
 fn supervisor(line: &str, progress: *mut u64) -> String {
     let parts: Vec<&str> = line.split(' ').collect();
     let all = match parts[0] {
         "hex" => Cases::Hex(unhex(parts[1])),
-        _ => Cases::Range { gen: Gen::parse(parts[1]).expect("gen"), lo: parts[2].parse().unwrap(), hi: parts[3].parse().unwrap(), l_tok: parts[4].parse().unwrap(), n_byte: parts[5].parse().unwrap() },
+        _ => Cases::Range { gen: Gen::parse(parts[1]).expect("gen"), off: parts[2].parse().unwrap(), stride: parts[3].parse().unwrap(), lo: parts[4].parse().unwrap(), hi: parts[5].parse().unwrap(), l_tok: parts[6].parse().unwrap(), n_byte: parts[7].parse().unwrap() },
     };
     let mut total = Tally::default();
     let mut cur = all.lo();
@@ -674,7 +701,7 @@ fn supervisor(line: &str, progress: *mut u64) -> String {
                     total.distinct += 1;
                     total.nontrivial += 1;
                 }
-                total.vio(format!("{}:{}", region(&input), sym), 1, idx, format!("decode({}) killed the process: {}", esc(&input), detail));
+                total.vio(format!("{}:{}", region(&input), sym), 1, all.real(idx), format!("decode({}) killed the process: {}", esc(&input), detail));
                 cur = idx + 1;
             }
         }
@@ -742,68 +769,83 @@ fn main() {
         let quick = ctx.quick();
         let l_tok = if quick { 5 } else { 6 };
         let n_byte = if quick { 8 } else { 9 };
-        let mut gens: Vec<Gen> = (0..=l_tok).map(Gen::Tok).collect();
-        gens.extend((0..=n_byte).map(Gen::Byte));
-        gens.push(Gen::Edit(1));
-        if !quick {
-            gens.push(Gen::Edit(2));
-        }
-        gens.push(Gen::Tower);
+        // phase 1: the quick-tier space; phase 2 (thorough only): what the thorough tier adds
+        let mut phase1: Vec<Gen> = (0..=5usize).map(Gen::Tok).collect();
+        phase1.extend((0..=8usize).map(Gen::Byte));
+        phase1.push(Gen::Edit(1));
+        phase1.push(Gen::Tower);
+        let phase2: Vec<Gen> = if quick { vec![] } else { vec![Gen::Tok(6), Gen::Byte(9), Gen::Edit(2)] };
         let conc = std::thread::available_parallelism().map(|n| n.get()).unwrap_or(8).min(16);
-        let chunk = 50_000u64;
-        let mut ranges: Vec<(Gen, u64, u64)> = vec![];
+        let chunk = 10_000u64;
         let mut cardinality = 0u64;
         let mut card_by_gen = BTreeMap::new();
-        for g in &gens {
-            let n = g.size();
-            cardinality += n;
-            card_by_gen.insert(g.name(), n);
-            let step = if *g == Gen::Tower { 1 } else { chunk };
-            let mut lo = 0;
-            while lo < n {
-                let hi = (lo + step).min(n);
-                ranges.push((*g, lo, hi));
-                lo = hi;
-            }
+        for g in phase1.iter().chain(phase2.iter()) {
+            cardinality += g.size();
+            card_by_gen.insert(g.name(), g.size());
         }
-        let lines: Vec<String> = ranges.iter().map(|(g, lo, hi)| format!("range {} {} {} {} {}", g.name(), lo, hi, l_tok, n_byte)).collect();
-        let outs = subproc::run_cases("c21", &lines, &opts(conc));
         let mut total = Tally::default();
         let mut canon_by_gen: BTreeMap<String, u64> = BTreeMap::new();
         let mut evals_by_gen: BTreeMap<String, u64> = BTreeMap::new();
         // sig -> (count, (gen, idx), msg)
         let mut vios: BTreeMap<String, (u64, (Gen, u64), String)> = BTreeMap::new();
         let mut samples: Vec<Value> = vec![];
-        for ((g, lo, hi), o) in ranges.iter().zip(outs.iter()) {
-            let t = parse_answer(ctx, o, &format!("{} [{lo}, {hi})", g.name()));
-            if t.evals != hi - lo {
-                ctx.machinery(&format!("{} [{lo}, {hi}): {} cases evaluated", g.name(), t.evals));
+        let mut skipped: Vec<String> = vec![];
+        for (phase, gens) in [(1, &phase1), (2, &phase2)] {
+            if phase == 2 && total.died > 50 {
+                // every fatal case costs a process; the deeper sweep of a tree that dies this often would take
+                // hours and could only add to an existing verdict. Reported as a cap, never as exhaustive.
+                skipped = gens.iter().map(|g| g.name()).collect();
+                break;
             }
-            *canon_by_gen.entry(g.name()).or_default() += t.canon;
-            *evals_by_gen.entry(g.name()).or_default() += t.evals;
-            for (sig, (n, idx, msg)) in &t.vios {
-                match vios.get_mut(sig) {
-                    Some(e) => {
-                        e.0 += n;
-                        if (*g, *idx) < e.1 {
-                            e.1 = (*g, *idx);
-                            e.2 = msg.clone();
-                        }
-                    }
-                    None => {
-                        vios.insert(sig.clone(), (*n, (*g, *idx), msg.clone()));
-                    }
+            // (generator, offset, stride, number of positions)
+            let mut ranges: Vec<(Gen, u64, u64, u64)> = vec![];
+            for g in gens.iter() {
+                let n = g.size();
+                // phase 2 only runs on a tree that does not kill its children: bigger ranges, fewer processes
+                let per = if *g == Gen::Tower { 1 } else if phase == 2 { 5 * chunk } else { chunk };
+                let stride = ((n + per - 1) / per).max(1);
+                for off in 0..stride.min(n) {
+                    let count = (n - off + stride - 1) / stride;
+                    ranges.push((*g, off, stride, count));
                 }
             }
-            samples.extend(t.samples.iter().cloned());
-            total.merge(&t);
+            let lines: Vec<String> = ranges.iter().map(|(g, off, stride, count)| format!("range {} {} {} 0 {} {} {}", g.name(), off, stride, count, l_tok, n_byte)).collect();
+            let outs = subproc::run_cases("c21", &lines, &opts(conc));
+            for ((g, off, stride, count), o) in ranges.iter().zip(outs.iter()) {
+                let t = parse_answer(ctx, o, &format!("{} offset {off} stride {stride}", g.name()));
+                if t.evals != *count {
+                    ctx.machinery(&format!("{} offset {off} stride {stride}: {} of {count} cases evaluated", g.name(), t.evals));
+                }
+                *canon_by_gen.entry(g.name()).or_default() += t.canon;
+                *evals_by_gen.entry(g.name()).or_default() += t.evals;
+                for (sig, (n, idx, msg)) in &t.vios {
+                    match vios.get_mut(sig) {
+                        Some(e) => {
+                            e.0 += n;
+                            if (*g, *idx) < e.1 {
+                                e.1 = (*g, *idx);
+                                e.2 = msg.clone();
+                            }
+                        }
+                        None => {
+                            vios.insert(sig.clone(), (*n, (*g, *idx), msg.clone()));
+                        }
+                    }
+                }
+                samples.extend(t.samples.iter().cloned());
+                total.merge(&t);
+            }
         }
+        let skipped_card: u64 = skipped.iter().map(|n| card_by_gen[n]).sum();
 
         // cross-checks of the bookkeeping (machinery, not verdicts)
-        if total.evals != cardinality {
+        if total.evals + skipped_card != cardinality {
             ctx.machinery(&format!("evaluated {} cases, generators hold {}", total.evals, cardinality));
         }
         for l in 0..=l_tok {
+            if skipped.contains(&format!("tok{l}")) {
+                continue;
+            }
             let got = canon_by_gen.get(&format!("tok{l}")).copied().unwrap_or(0);
             if got != canonical_count(l) {
                 ctx.machinery(&format!("canonical token strings of length {l}: enumerated {got}, transfer-matrix count {}", canonical_count(l)));
@@ -822,7 +864,13 @@ fn main() {
         ctx.cov("evaluations", total.evals);
         ctx.cov("generator_cardinality", cardinality);
         ctx.cov("generator_cardinality_by_generator", json!(card_by_gen));
-        ctx.cov("exhaustive", true);
+        ctx.cov("exhaustive", skipped.is_empty());
+        ctx.cov("cap_hit", !skipped.is_empty());
+        ctx.cov("skipped_generators", json!(skipped));
+        if !skipped.is_empty() {
+            ctx.note(format!("{} cases of the quick-tier space killed their process; the thorough-only generators {:?} ({} cases) were not run", total.died, skipped, skipped_card));
+        }
+        ctx.cov("evaluations_by_generator", json!(evals_by_gen));
         ctx.cov("distinct_inputs", total.distinct);
         ctx.cov("distinct_nontrivial", total.nontrivial);
         ctx.cov("rule", "a case counts once per distinct byte string (token strings that spell a byte string a shorter token string already spells, and byte/edit/tower strings already in an earlier generator's space, are evaluated but not counted); it is non-trivial if the decoder did anything but ask for more data: returned a value, a protocol error, panicked, over-allocated or killed the process");
